@@ -101,6 +101,16 @@ type cbHandler struct {
 	started chan struct{}
 }
 
+// futureDepthKey marks, in the context handed down by the graph handler, how many graphs enclose the current
+// unit: 1 inside the agent's own graph, more inside a graph that a tool (or the model) runs with the context it
+// was given. Only the agent's own graph opens and closes the future, and only its model and tools feed it.
+type futureDepthKey struct{}
+
+func futureDepth(ctx context.Context) int {
+	d, _ := ctx.Value(futureDepthKey{}).(int)
+	return d
+}
+
 func (h *cbHandler) GetMessages() *Iterator[*schema.Message] {
 	<-h.started
 
@@ -116,6 +126,9 @@ func (h *cbHandler) GetMessageStreams() *Iterator[*schema.StreamReader[*schema.M
 func (h *cbHandler) onChatModelEnd(ctx context.Context,
 	_ *callbacks.RunInfo, input *model.CallbackOutput) context.Context {
 
+	if futureDepth(ctx) != 1 {
+		return ctx
+	}
 	h.sendMessage(input.Message)
 
 	return ctx
@@ -124,6 +137,10 @@ func (h *cbHandler) onChatModelEnd(ctx context.Context,
 func (h *cbHandler) onChatModelEndWithStreamOutput(ctx context.Context,
 	_ *callbacks.RunInfo, input *schema.StreamReader[*model.CallbackOutput]) context.Context {
 
+	if futureDepth(ctx) != 1 {
+		input.Close()
+		return ctx
+	}
 	c := func(output *model.CallbackOutput) (*schema.Message, error) {
 		return output.Message, nil
 	}
@@ -137,6 +154,9 @@ func (h *cbHandler) onChatModelEndWithStreamOutput(ctx context.Context,
 func (h *cbHandler) onToolEnd(ctx context.Context,
 	_ *callbacks.RunInfo, input *tool.CallbackOutput) context.Context {
 
+	if futureDepth(ctx) != 1 {
+		return ctx
+	}
 	toolCallID := compose.GetToolCallID(ctx)
 	msg := schema.ToolMessage(input.Response, toolCallID)
 
@@ -148,6 +168,10 @@ func (h *cbHandler) onToolEnd(ctx context.Context,
 func (h *cbHandler) onToolEndWithStreamOutput(ctx context.Context,
 	_ *callbacks.RunInfo, input *schema.StreamReader[*tool.CallbackOutput]) context.Context {
 
+	if futureDepth(ctx) != 1 {
+		input.Close()
+		return ctx
+	}
 	toolCallID := compose.GetToolCallID(ctx)
 	c := func(output *tool.CallbackOutput) (*schema.Message, error) {
 		return schema.ToolMessage(output.Response, toolCallID), nil
@@ -162,6 +186,9 @@ func (h *cbHandler) onToolEndWithStreamOutput(ctx context.Context,
 func (h *cbHandler) onGraphError(ctx context.Context,
 	_ *callbacks.RunInfo, err error) context.Context {
 
+	if futureDepth(ctx) != 1 {
+		return ctx
+	}
 	if h.msgs != nil {
 		h.msgs.Send(item[*schema.Message]{err: err})
 	} else {
@@ -174,14 +201,21 @@ func (h *cbHandler) onGraphError(ctx context.Context,
 func (h *cbHandler) onGraphEnd(ctx context.Context,
 	_ *callbacks.RunInfo, _ callbacks.CallbackOutput) context.Context {
 
+	if futureDepth(ctx) != 1 {
+		return ctx
+	}
 	h.msgs.Close()
 
 	return ctx
 }
 
 func (h *cbHandler) onGraphEndWithStreamOutput(ctx context.Context,
-	_ *callbacks.RunInfo, _ *schema.StreamReader[callbacks.CallbackOutput]) context.Context {
+	_ *callbacks.RunInfo, out *schema.StreamReader[callbacks.CallbackOutput]) context.Context {
 
+	out.Close()
+	if futureDepth(ctx) != 1 {
+		return ctx
+	}
 	h.sMsgs.Close()
 
 	return ctx
@@ -190,6 +224,11 @@ func (h *cbHandler) onGraphEndWithStreamOutput(ctx context.Context,
 func (h *cbHandler) onGraphStart(ctx context.Context,
 	_ *callbacks.RunInfo, _ callbacks.CallbackInput) context.Context {
 
+	d := futureDepth(ctx)
+	ctx = context.WithValue(ctx, futureDepthKey{}, d+1)
+	if d != 0 {
+		return ctx // a graph run inside the agent's run
+	}
 	h.msgs = internal.NewUnboundedChan[item[*schema.Message]]()
 
 	close(h.started)
@@ -198,8 +237,14 @@ func (h *cbHandler) onGraphStart(ctx context.Context,
 }
 
 func (h *cbHandler) onGraphStartWithStreamInput(ctx context.Context, _ *callbacks.RunInfo,
-	_ *schema.StreamReader[callbacks.CallbackInput]) context.Context {
+	in *schema.StreamReader[callbacks.CallbackInput]) context.Context {
 
+	in.Close()
+	d := futureDepth(ctx)
+	ctx = context.WithValue(ctx, futureDepthKey{}, d+1)
+	if d != 0 {
+		return ctx // a graph run inside the agent's run
+	}
 	h.sMsgs = internal.NewUnboundedChan[item[*schema.StreamReader[*schema.Message]]]()
 
 	close(h.started)
